@@ -110,10 +110,14 @@ func selfDescribe(g CallGraphNode) string {
 		for _, k := range names {
 			b := ins[k]
 			tid := b.Type.TypeId()
-			sb = append(sb, ("  in " + k + " " + tid.str() + " = " + b.Exp.GoString() + "\n")...)
+			sb = append(sb, ("  in " + k + " " + tid.str() + " = " + b.Exp.GoString())...)
+			sb = selfMerges(b.Exp, sb)
+			sb = append(sb, '\n')
 		}
 		if out := n.ResolvedOutputs(); out != nil && out.Exp != nil {
-			sb = append(sb, ("  out " + out.Exp.GoString() + "\n")...)
+			sb = append(sb, ("  out " + out.Exp.GoString())...)
+			sb = selfMerges(out.Exp, sb)
+			sb = append(sb, '\n')
 		}
 		for _, d := range n.Disabled() {
 			sb = append(sb, ("  disabled " + d.GoString() + "\n")...)
@@ -124,6 +128,220 @@ func selfDescribe(g CallGraphNode) string {
 	}
 	return string(sb)
 }
+
+// selfMerges lists the fork nodes the resolver chose for merge expressions.
+func selfMerges(e Exp, out []byte) []byte {
+	switch e := e.(type) {
+	case *MergeExp:
+		if e.ForkNode != nil {
+			out = append(out, (" merge-fork-node " + e.ForkNode.Id + "." + e.ForkNode.OutputId)...)
+		}
+		if e.Value != nil {
+			out = selfMerges(e.Value, out)
+		}
+	case *SplitExp:
+		out = selfMerges(e.Value, out)
+	case *DisabledExp:
+		out = selfMerges(e.Value, out)
+		out = selfMerges(e.Disabled, out)
+	case *ArrayExp:
+		for _, v := range e.Value {
+			out = selfMerges(v, out)
+		}
+	case *MapExp:
+		keys := make([]string, 0, len(e.Value))
+		for k := range e.Value {
+			keys = append(keys, k)
+		}
+		for i := 1; i < len(keys); i++ {
+			for j := i; j > 0 && keys[j] < keys[j-1]; j-- {
+				keys[j], keys[j-1] = keys[j-1], keys[j]
+			}
+		}
+		for _, k := range keys {
+			out = selfMerges(e.Value[k], out)
+		}
+	}
+	return out
+}
+
+// a program whose merge expression has to pick its fork node among several
+// split inputs (repository programs have at most one candidate)
+const selfMergeSrc = `
+stage RANGE(
+    in  float begin,
+    in  float end,
+    out int[] values,
+    src py    "stages/range",
+)
+
+stage POW(
+    in  float x,
+    in  float y,
+    out float z,
+    src py    "stages/pow",
+)
+
+stage SUM(
+    in  float[] x,
+    out float   sum,
+    src py      "stages/sum",
+)
+
+pipeline CONSTS(
+    in  float a,
+    in  float b,
+    in  float c,
+    in  float d,
+    out float a,
+    out int   one,
+    out int[] arr,
+)
+{
+    call RANGE(
+        begin = 1,
+        end   = 2,
+    )
+
+    call SUM(
+        x = [
+            self.a,
+            self.b,
+            self.c,
+            self.d,
+        ],
+    )
+
+    return (
+        a   = SUM.sum,
+        one = 1,
+        arr = RANGE.values,
+    )
+}
+
+pipeline TOP(
+    out float sum,
+    out int[][] arrs,
+)
+{
+    call RANGE(
+        begin = 0,
+        end   = 5,
+    )
+
+    map call POW as PA(
+        x = split RANGE.values,
+        y = 1,
+    )
+
+    map call POW as PB(
+        x = split RANGE.values,
+        y = 2,
+    )
+
+    map call POW as PC(
+        x = split RANGE.values,
+        y = 3,
+    )
+
+    map call POW as PD(
+        x = split RANGE.values,
+        y = 4,
+    )
+
+    map call CONSTS(
+        a = split PA.z,
+        b = split PB.z,
+        c = split PC.z,
+        d = split PD.z,
+    )
+
+    call SUM(
+        x = CONSTS.one,
+    )
+
+    return (
+        sum  = SUM.sum,
+        arrs = CONSTS.arr,
+    )
+}
+
+call TOP()
+`
+
+// two split arguments written on one source line (the resolver orders splits
+// by file and line)
+const selfSameLineSrc = `
+stage GEN(
+    in  int   n,
+    out int[] xs,
+    out int[] ys,
+    src comp  "bin",
+)
+
+stage W(
+    in  int x,
+    in  int y,
+    out int o,
+    src comp "bin",
+)
+
+pipeline P(
+    out int[] os,
+)
+{
+    call GEN(
+        n = 2,
+    )
+
+    call GEN as GEN2(
+        n = 2,
+    )
+
+    map call W(
+        x = split GEN.xs, y = split GEN2.ys,
+    )
+
+    return (
+        os = W.o,
+    )
+}
+
+call P()
+`
+
+// an invalid program with more than one way to say what is wrong: the map
+// sources of one map call have disjoint key sets
+const selfKeyMismatchSrc = `
+stage W(
+    in  int x,
+    in  int y,
+    out int o,
+    src comp "bin",
+)
+
+pipeline P(
+    out map<int> os,
+)
+{
+    map call W(
+        x = split {
+            "a": 1,
+            "b": 2,
+        },
+        y = split {
+            "c": 3,
+            "d": 4,
+        },
+    )
+
+    return (
+        os = W.o,
+    )
+}
+
+call P()
+`
 
 // selfCompile compiles one program and renders everything computed.
 func selfCompile(src []byte) string {
@@ -154,7 +372,20 @@ func selfCompile(src []byte) string {
 // native replay uses Go's randomised order.  All must produce the same
 // formatted text and call graph.
 func H_SELF_compile(i int) {
-	src := verifRepoFile(selfCompileFiles[i])
+	var src []byte
+	name := "merge fork node fixture"
+	if i < len(selfCompileFiles) {
+		src = verifRepoFile(selfCompileFiles[i])
+		name = selfCompileFiles[i]
+	} else if i == len(selfCompileFiles) {
+		src = []byte(selfMergeSrc)
+	} else if i == len(selfCompileFiles)+1 {
+		src = []byte(selfSameLineSrc)
+		name = "same-line splits fixture"
+	} else {
+		src = []byte(selfKeyMismatchSrc)
+		name = "key mismatch fixture"
+	}
 	verifReverseMapOrder(false)
 	sum := selfCompile(src)
 	verifReverseMapOrder(true)
@@ -162,5 +393,5 @@ func H_SELF_compile(i int) {
 	verifReverseMapOrder(false)
 	verifAssert(sum == sum2, "C10: compiling, formatting and resolving a repository test program gives the same result whatever the map iteration order (ghost)")
 	verifCover("self-test compiled")
-	verifCover("self-test compile " + selfCompileFiles[i] + " " + sum)
+	verifCover("self-test compile " + name + " " + sum)
 }
